@@ -233,6 +233,8 @@ def conclude(mod, tier, seed, results, by_id, inconclusive, t_start, out):
             if isinstance(v, (int, float)):
                 if k.startswith('max_'):
                     obs[k] = max(obs.get(k, 0), v)
+                elif k.startswith('min_'):
+                    obs[k] = min(obs.get(k, v), v)
                 else:
                     obs[k] = obs.get(k, 0) + v
         if r.get('nontrivial'):
